@@ -598,6 +598,38 @@ pub fn endgame(max_extra: usize) -> impl Strategy<Value = RawPos> {
         })
 }
 
+/// Tiny endgames with far-advanced pawns: promotions inside a short horizon make sibling
+/// lines differ by large amounts.
+pub fn pawn_race() -> impl Strategy<Value = RawPos> {
+    (
+        0u8..64,
+        0u8..64,
+        prop::collection::vec((0u8..8, 0u8..3, any::<bool>()), 1..3),
+        prop::collection::vec(weighted_item([0, 2, 2, 3, 1]), 0..2),
+        any::<bool>(),
+    )
+        .prop_map(|(wk, bk, pawns, extra, white_to_move)| {
+            let mut items: Vec<(u8, u8, bool)> = pawns
+                .into_iter()
+                .map(|(f, adv, w)| {
+                    // white pawns on ranks 7/6/5, black pawns on ranks 2/3/4
+                    let r = if w { 6 - adv } else { 1 + adv };
+                    (r * 8 + f, 0u8, w)
+                })
+                .collect();
+            items.extend(extra);
+            RawPos {
+                wk,
+                bk,
+                items,
+                white_to_move,
+                rights: 0,
+                ep_file: None,
+                half: 0,
+            }
+        })
+}
+
 /// Material-extreme set-ups: many queens / rooks / minor pieces (promoted), bare kings.
 pub fn material_extreme() -> impl Strategy<Value = RawPos> {
     (
